@@ -222,6 +222,42 @@ def programs(rng, tier):
         P.add(["pv_card", ha])
     # ---- comparators
     pool = pool_of(rng, 30 if quick else 64)
+    # counts with more than 53 significant bits: conjunctions of disjoint small clauses over ~70 variables, the same
+    # clause sizes interleaved differently in the variable order (equal exact counts, differently shaped diagrams)
+    for _ in range(40 if quick else 600):
+        nv = rng.choice([60, 72, 80])
+        sizes = [rng.choice([2, 3, 4]) for _ in range(nv // 3)]
+        while sum(sizes) > nv - 1:
+            sizes.pop()
+
+        def build(order):
+            szs = list(sizes)
+            if order:
+                rng.shuffle(szs)          # contiguous groups in a different order: same exact count, different shape
+            groups, i = [], 0
+            for sz in szs:
+                groups.append(list(range(i, i + sz)))
+                i += sz
+            nodes = [(nv, 0, 0), (nv, 1, 1)]
+            nxt = 1
+            for g in reversed(groups):    # (x1 | x2 | ...) & rest : node x_k: high -> rest, low -> x_{k+1}; last low -> 0
+                low = 0
+                for x in reversed(g):
+                    nodes.append((x, low, nxt))
+                    low = len(nodes) - 1
+                nxt = low
+            return nodes
+        a = build(False)
+        b = build(True)
+        if a is None or b is None or len(a) > 400 or len(b) > 400 or not is_canonical(a)[0] or not is_canonical(b)[0]:
+            continue
+        for op in ("cmp_cardinality", "cmp_cardinality_strict"):
+            P.add([op, bdd_sx(a), bdd_sx(b)])
+            P.add([op, bdd_sx(b), bdd_sx(a)])
+        # ... and a pair whose counts differ by one valuation only (equal as doubles): a vs a minus one satisfying valuation
+        one = "v" + "".join("1" for _ in range(nv))
+        P.add_prog([["a", "id", bdd_sx(a)], ["w", "of_valuation", one], ["a2", "named", "and_not", "$a", "$w"],
+                    ["c1", "cmp_cardinality", "$a", "$a2"], ["c2", "cmp_cardinality_strict", "$a2", "$a"]])
     for a in pool:
         P.add(["exact_card", bdd_sx(a)])
     for a in pool:
@@ -256,10 +292,33 @@ def cmp3(x, y):
 
 
 def count_tt(nodes):
-    nv = nodes[0][0]
-    if nv > 14:
+    """independent exact model count over a raw array (Python ints are unbounded): memoised recursion with
+    level-gap weights; cross-checked against the truth table when the variable count is small"""
+    if not is_wf(nodes):
         return None
-    return sum(1 for t in raw_tt(nodes) if t)
+    nv = nodes[0][0]
+    memo = {}
+
+    def cnt(p):      # number of assignments of variables var(p)..nv-1 satisfying the sub-diagram
+        if p == 0:
+            return 0
+        if p == 1:
+            return 1
+        if p in memo:
+            return memo[p]
+        v, l, h = nodes[p]
+        vl = nodes[l][0]
+        vh = nodes[h][0]
+        r = cnt(l) * (1 << (vl - v - 1)) + cnt(h) * (1 << (vh - v - 1))
+        memo[p] = r
+        return r
+    root = len(nodes) - 1
+    import sys as _s
+    _s.setrecursionlimit(max(10000, 4 * len(nodes)))
+    total = cnt(root) * (1 << nodes[root][0]) if root >= 2 else (cnt(root) << nv)
+    if nv <= 12:
+        assert total == sum(1 for t in raw_tt(nodes) if t)
+    return total
 
 
 def expected(call):
@@ -353,8 +412,11 @@ def check_partial(call, impl):
         nodes = bdd_nodes(rb)
         if not is_wf(nodes) or nodes[0][0] != len(v):
             return {"problem": "the diagram of a total valuation is invalid or over another variable count", "observed": sx_str(impl)}
-        for i in range(1 << len(v)):
-            w = val_of_index(i, len(v))
+        if len(v) <= 12:
+            cands = (val_of_index(i, len(v)) for i in range(1 << len(v)))
+        else:   # too many valuations to enumerate: the valuation itself, every single-bit flip, all-false / all-true
+            cands = [list(v)] + [[(not c) if k == j else c for k, c in enumerate(v)] for j in range(len(v))] + [[False] * len(v), [True] * len(v)]
+        for w in cands:
             if raw_eval(nodes, w) != (w == v):
                 return {"valuation": vbits(w), "expected": w == v, "observed": raw_eval(nodes, w)}
         return None
@@ -402,10 +464,8 @@ def judge(st, V):
             V.violations.append(violation(PID, st, "conversion is not an inverse / result is malformed", oracle=bad, confirmed=True,
                                           relation="round trip (independent oracle)"))
             return
-    if op in ("cmp_cardinality", "cmp_cardinality_strict", "exact_card") and impl != model:
-        # the model counts by brute force; the comparator is judged against the oracle above and, in finalize(), against the
-        # implementation's own exact_cardinality
-        V.count("cmp_cardinality_differs_from_bruteforce_model")
+    if model == "TOOBIG":
+        V.count("model_withheld_oracle_only")
     elif impl != model:
         V.violations.append(violation(PID, st, "implementation and model disagree", oracle={"expected_by_oracle": sx_str(want)[:300] if want is not None else None},
                                       confirmed=False, relation="exact"))
@@ -493,6 +553,8 @@ def finalize(steps, V):
                     rbc = tab.get((b, c))
                     if not le(rbc):
                         continue
+                    if (a, c) not in tab:
+                        continue          # the pair was not part of this run (only complete triples are judged)
                     rac = tab.get((a, c))
                     ntr += 1
                     if not le(rac) or (rac == "EQ") != (rab == "EQ" and rbc == "EQ"):
